@@ -361,3 +361,38 @@ def account(ctx, results):
         tot["nontrivial"] += r["distinct_nontrivial"]
     ctx.traces_validated += tot["behaviours"]
     return tot
+
+
+def replay_sharded(ctx, sub, beh, name, extra_args, shards=8, timeout=3000, workarg=True):
+    """Split a behaviour file round-robin into shards, replay them in parallel, merge the results."""
+    lines = open(beh).read().splitlines()
+    shards = max(1, min(shards, len(lines)))
+    files = []
+    for i in range(shards):
+        p = os.path.join(ctx.work, "%s.shard%d.ndjson" % (name, i))
+        open(p, "w").write("\n".join(lines[i::shards]) + "\n")
+        files.append(p)
+
+    def one(i):
+        args = list(extra_args)
+        if workarg:
+            args += ["--work", ctx.sub("w_%s_%d" % (name, i))]
+        out = os.path.join(ctx.work, "res_%s_%d.json" % (name, i))
+        run_vh(ctx, [sub, "--in", files[i], "--out", out] + args, timeout=timeout)
+        return json.load(open(out))
+    parts = parallel([lambda i=i: one(i) for i in range(shards)], max_workers=shards)
+    merged = dict(family=parts[0]["family"], behaviours=0, steps=0, distinct_nontrivial=0, mismatches=[], samples=[],
+                  sig_counts={}, extra={}, config=" ".join(extra_args))
+    for r in parts:
+        merged["behaviours"] += r["behaviours"]
+        merged["steps"] += r["steps"]
+        merged["distinct_nontrivial"] += r["distinct_nontrivial"]
+        merged["mismatches"] += r["mismatches"]
+        merged["samples"] += r.get("samples", [])[:1]
+        for k, v in r.get("sig_counts", {}).items():
+            merged["sig_counts"][k] = merged["sig_counts"].get(k, 0) + v
+    ctx.results.append(merged)
+    for s in merged["samples"][:2]:
+        if len(ctx.samples) < 4:
+            ctx.samples.append(s)
+    return merged
